@@ -119,6 +119,12 @@ def corpus_stream(rng, n, only_lf=True, mix=(0.25, 0.3, 0.15, 0.2, 0.1)):
         if only_lf:
             t = ''.join(c for c in t if c == '\n' or len(('a' + c + 'b').splitlines()) == 1)
         out.append(t)
+    # one in sixteen: a document that repeats the same source text in several places (see `repetitive`)
+    k = n // 16
+    if k:
+        rep = repetitive(rng, specs, k)
+        for j, t in enumerate(rep):
+            out[(j * 16 + 7) % n] = t
     return out
 
 
